@@ -167,8 +167,19 @@ func (fr *FnRun) instr(st *State, in ssa.Instruction, depth int) {
 		st.vals[x] = &OpaqueV{T: x.Type(), Name: "chan"}
 	case *ssa.Send:
 	case *ssa.Select:
-		// any ready case: result tuple is unconstrained
-		st.vals[x] = ex.freshVal(x.Type(), ex.fresh("select"))
+		// any ready case: the chosen index is one of the cases (or -1 for a non-blocking select);
+		// received values are unconstrained
+		sv := ex.freshVal(x.Type(), ex.fresh("select"))
+		if tv, ok := sv.(*TupleV); ok && len(tv.E) > 0 {
+			if idx, ok := tv.E[0].(*Term); ok {
+				lo := Int(0)
+				if !x.Blocking {
+					lo = Int(-1)
+				}
+				st.assume(And(Le(lo, idx), Lt(idx, Int(int64(len(x.States))))))
+			}
+		}
+		st.vals[x] = sv
 	case *ssa.Range:
 		st.vals[x] = &OpaqueV{T: x.Type(), Name: "range:" + x.X.Name()}
 		fr.rangeInit(st, x)
